@@ -60,8 +60,64 @@ func mutexKey(v ssa.Value) (key, name string, shard ssa.Value) {
 		}
 	case *ssa.Alloc:
 		return "", "", nil // local mutex (semaphore idiom): not a class
+	case *ssa.Phi:
+		// a variable holding the accessor's result (shardMu := indexShardMu(label)) seen through a trivial phi
+		if len(x.Edges) == 1 {
+			return mutexKey(x.Edges[0])
+		}
+	case *ssa.Call:
+		// an accessor of the package that returns the address of a mutex of a sharded table selected by one of its
+		// parameters (indexShardMu(label) = &indexMu[label%numIndexShards]): the class is the table's, the shard
+		// selector is the argument; the key carries the mark "|accessor" so that users can tell the two forms apart
+		g := x.Call.StaticCallee()
+		if g == nil || len(g.Blocks) != 1 || !inRepo(g) || mutexKeyDepth > 0 {
+			return "", "", nil
+		}
+		ret, ok := g.Blocks[0].Instrs[len(g.Blocks[0].Instrs)-1].(*ssa.Return)
+		if !ok || len(ret.Results) != 1 {
+			return "", "", nil
+		}
+		mutexKeyDepth++
+		k, n, sh := mutexKey(ret.Results[0])
+		mutexKeyDepth--
+		if k == "" {
+			return "", "", nil
+		}
+		if sh == nil {
+			return k, n, nil
+		}
+		for _, rv := range roots(sh, g) {
+			if bo, ok := rv.V.(*ssa.BinOp); ok && bo.Op == token.REM {
+				for i, prm := range g.Params {
+					if stripConv(bo.X) == ssa.Value(prm) && i < len(x.Call.Args) {
+						return k + "|accessor", n, x.Call.Args[i]
+					}
+				}
+			}
+		}
+		return "", "", nil
 	}
 	return "", "", nil
+}
+
+var mutexKeyDepth int
+
+// shardSelectors: the values whose remainder selects the shard of a sharded-mutex operation (x in table[x%n], or the
+// argument of an accessor that computes the remainder itself).
+func shardSelectors(op lockOp, f *ssa.Function) []ssa.Value {
+	if op.shard == nil {
+		return nil
+	}
+	if strings.HasSuffix(op.key, "|accessor") {
+		return []ssa.Value{op.shard}
+	}
+	var out []ssa.Value
+	for _, rv := range roots(op.shard, f) {
+		if bo, ok := rv.V.(*ssa.BinOp); ok && bo.Op == token.REM {
+			out = append(out, bo.X)
+		}
+	}
+	return out
 }
 
 func asLockOp(in ssa.Instruction) (lockOp, bool) {
@@ -248,8 +304,8 @@ func ruleR11_1(r *Run) {
 				okShard := false
 				for _, l := range []ssa.Instruction{lockG, lockP} {
 					if op, ok := asLockOp(l); ok && op.shard != nil {
-						for _, rv := range roots(op.shard, f) {
-							if bo, ok := rv.V.(*ssa.BinOp); ok && bo.Op == token.REM && sameRoots(bo.X, label, f) {
+						for _, sv := range shardSelectors(op, f) {
+							if sameRoots(sv, label, f) {
 								okShard = true
 							}
 						}
